@@ -406,6 +406,94 @@ def impl_decl(case):
         cp.ser.prefs.minimizeColorHash = True
 
 
+def _num_items(items):
+    out = []
+    for x in items:
+        if type(x).__name__ != "DimensionValue":
+            out.append({"other": type(x).__name__, "text": x.cssText})
+        else:
+            v = x.value
+            out.append({"val": float(v) if not isinstance(v, bool) and isinstance(v, (int, float)) else None,
+                        "unit": x.dimension or ""})
+    return out
+
+
+def impl_neighbours(case):
+    """(olz, spacer, entry, text): several numeric values in ONE property value, serialised as a whole declaration
+    under omitLeadingZero x the value spacer (' ' default, '' as prefs.useMinified() sets it) and re-parsed: what a
+    number's serialisation parses back to must not depend on its neighbours"""
+    olz, spacer, entry, text = case
+    cp = _setup()
+    keep = cp.log.raiseExceptions
+    keep_sp = cp.ser.prefs.spacer
+    try:
+        cp.log.raiseExceptions = True
+        cp.ser.prefs.omitLeadingZero = bool(olz)
+        cp.ser.prefs.spacer = spacer
+        try:
+            items = _decl_items(entry, "margin", text)
+            if items is None:
+                return {"err": "declaration rejected"}
+            out = {"first": _num_items(items)}
+            import css_parser
+            pv = css_parser.css.PropertyValue(text)
+            out["first_pv"] = _num_items(list(pv))
+            out["ser"] = pv.cssText
+            st = css_parser.parseStyle("margin: %s" % text, validate=False)
+            out["ser_decl"] = st.cssText
+            cp.ser.prefs.omitLeadingZero = False
+            cp.ser.prefs.spacer = keep_sp
+            it2 = _decl_items(entry, "margin", out["ser"])
+            out["second"] = None if it2 is None else _num_items(it2)
+            st2 = css_parser.parseStyle(out["ser_decl"], validate=False)
+            p2 = st2.getProperty("margin")
+            out["second_decl"] = None if p2 is None else _num_items(list(p2.propertyValue))
+            return out
+        except Exception as e:  # noqa
+            return {"err": type(e).__name__ + ": " + str(e)[:120]}
+    finally:
+        cp.log.raiseExceptions = keep
+        cp.ser.prefs.omitLeadingZero = False
+        cp.ser.prefs.spacer = keep_sp
+
+
+NEIGHBOUR_LEXEMES = ["0", "+0", "-0", "0px", "0.0em", ".0", "00", "0%", ".5", "0.5", "-.5", "+.5", ".5px", "0.25em",
+                     "-0.5%", "+.05cm", "1", "10", "1.5", "-1", "+2px", "10%", "1.0", "100.50pt", ".000001", "5e"]
+
+
+def gen_neighbours(ctx, thorough):
+    rng = ctx.rng
+    L = NEIGHBOUR_LEXEMES
+    texts = ["%s %s" % (a, b) for a in L for b in L]
+    k = 1500 if thorough else 250
+    texts += [" ".join(rng.choice(L) for _ in range(rng.choice([3, 4]))) for _ in range(k)]
+    return [(olz, sp, ENTRIES[(i + olz) % 3], tx) for i, tx in enumerate(texts) for olz in (0, 1) for sp in (" ", "")]
+
+
+def oracle_neighbours(case, res):
+    olz, sp, entry, text = case
+    if "err" in res:
+        return "value list %r (omitLeadingZero=%s, spacer=%r): %s" % (text, bool(olz), sp, res["err"])
+    n = len(text.split(" "))
+    first = res["first_pv"]
+    if len(first) != n or any("other" in x for x in first):
+        return None        # not a list of n numeric values (e.g. 5e is a dimension with unit e; fine) -> other stages
+    for key, what in (("second", "PropertyValue.cssText"), ("second_decl", "the declaration's cssText")):
+        sec = res[key]
+        ser = res["ser"] if key == "second" else res["ser_decl"]
+        if sec is None or len(sec) != n or any("other" in x for x in sec):
+            return ("value list %r serialises (omitLeadingZero=%s, spacer=%r, %s) as %r, which parses back to %r: not the "
+                    "%d numbers written" % (text, bool(olz), sp, what, ser, sec, n))
+        for a, b in zip(first, sec):
+            if a["val"] is None or b["val"] is None or abs(a["val"] - b["val"]) > 5e-7 * max(1.0, abs(a["val"])):
+                return ("value list %r serialises (omitLeadingZero=%s, spacer=%r, %s) as %r: %r parses back as %r"
+                        % (text, bool(olz), sp, what, ser, a, b))
+            if a["unit"] != b["unit"] and not (b["unit"] == "" and a["val"] == 0 and a["unit"] in ZERO_UNITS_SPEC):
+                return ("value list %r serialises (omitLeadingZero=%s, spacer=%r, %s) as %r: unit %r parses back as %r"
+                        % (text, bool(olz), sp, what, ser, a["unit"], b["unit"]))
+    return None
+
+
 def gen_decl(ctx, thorough, lex, esc, hashes, fns):
     """a sample of the number / colour grids x entry point x polluter"""
     rng = ctx.rng
@@ -896,6 +984,9 @@ def check_witness(ctx, w):
         if isinstance(x, str):
             return oracle_hash(x, i) if x.startswith("#") else oracle_name(x, i, css3_table())
         return oracle_fn((x[0], [tuple(a) for a in x[1]], x[2]), i)[0]
+    if w["kind"] == "neighbours":
+        c = (w["olz"], w["spacer"], w["entry"], w["text"])
+        return oracle_neighbours(c, impl_neighbours(c))
     if w["kind"] == "history":
         r = oracle_history(impl_history((w["obj"], w["raise"], w["olz"], w["texts"])))
         return r[1] if r else None
@@ -1162,6 +1253,16 @@ def run(ctx):
                           w, sig_text=json.dumps(wire[4]))
     stats["declaration_path_cases"] = len(dcases)
 
+    # ---- 8. neighbour contexts: several numbers in one value under omitLeadingZero x value spacer (useMinified sets '')
+    ncases = gen_neighbours(ctx, thorough)
+    nres = ctx.pool_map(impl_neighbours, ncases, procs=6, chunksize=128)
+    for c, i in zip(ncases, nres):
+        d = oracle_neighbours(c, i)
+        if d:
+            ctx.violation(d, {"kind": "neighbours", "olz": c[0], "spacer": c[1], "entry": c[2], "text": c[3]},
+                          sig_text=json.dumps(c[3]))
+    stats["neighbour_context_cases"] = len(ncases)
+
     if mism:
         ctx.broken("correspondence", "Numbers.v / Colors.v vs css_parser",
                    "%d cases differ; first: %s" % (len(mism), json.dumps(mism[:4], default=str)))
@@ -1218,7 +1319,7 @@ def run(ctx):
                     return {"kind": "name", "text": n, "fails": d}
         return None
 
-    total = len(allc) + len(splits) + len(hcases) + len(names) + len(fns) + len(hist) + len(dcases)
+    total = len(allc) + len(splits) + len(hcases) + len(names) + len(fns) + len(hist) + len(dcases) + len(ncases)
     ctx.finish({
         "evaluations": total,
         "distinct_nontrivial": len(nontrivial),
